@@ -637,6 +637,15 @@ func (g *FuncGen) applyContract(pos token.Pos, fi *FuncInfo, recv *Val, args []V
 			g.assume(st, env.evalBool(en.Expr))
 		}
 	}
+	// the callee's own iofail obligation (genfunc.go): failures stay recorded, and a callee that returns an error reports them
+	if fi.Writes["$iofail"] {
+		was := g.ghostGet(pre, "$iofail")
+		now := g.ghostGet(st, "$iofail")
+		g.assume(st, fmt.Sprintf("(=> %s %s)", was, now))
+		if ioReporting(fi) && len(res) > 0 {
+			g.assume(st, fmt.Sprintf("(=> (and %s (not %s)) (not (= %s 0)))", now, was, res[len(res)-1].T))
+		}
+	}
 	return res
 }
 
